@@ -316,6 +316,10 @@ def p1(h, st):
     h.done()
 
 
+from tverif.engine import repeatable
+repeatable((TI, "translate_c_to_json_ionq"), (TI, "translate_c_from_json_ionq"), (TP, "translate_c_to_projectq"), (TP, "translate_c_from_projectq"), (TCQ, "translate_op_to_cirq"),
+           (TCQ, "translate_op_from_cirq"))
+
 PROPERTY = {
     "level": "other",
     "explanation": "IonQ JSON: round trip proved per gate kind for every parameter value (symbolic parameter, dictionaries are within the verifier's subset). ProjectQ command "
